@@ -3,7 +3,7 @@ Engine: nprobe canon (real CanonicalizePath, ASan+UBSan, exact-size heap buffers
 Oracle: ten-line reference normaliser compiled into the probe + idempotence, never longer,
 leading '/' kept, slash_bits==0, std::string overload agrees."""
 
-MANIFEST = {'engine': 'nprobe', 'category': 'exploration', 'technique': 'runtime monitoring: real CanonicalizePath under ASan/UBSan; bounded-exhaustive + random inputs; reference-normaliser oracle', 'text': 'Every string over {a,b,.,/} up to length 10 (quick) / 13 (thorough) and 0.2M / 5M random long paths and 32k shaped deep paths (descend D components, climb U, all D,U<=72) are pushed through the real function in exact-size heap buffers; each result is compared with a ten-line reference normaliser and checked for idempotence, non-growth, kept root. Exhaustive where the structure lives, sampled beyond; a sanitizer report is a violation.', 'note': 'Trusted: the reference normaliser (harness/probe_canon.cc RefCanon), ASan red zones. Empty string excluded (callers reject it).', 'ref': 'DESIGN.md §5 C14'}
+MANIFEST = {'engine': 'nprobe+e2e', 'category': 'exploration', 'technique': 'runtime monitoring: real CanonicalizePath under ASan/UBSan; bounded-exhaustive + random inputs; reference-normaliser oracle', 'text': 'Every string over {a,b,.,/} up to length 10 (quick) / 13 (thorough) and 0.2M / 5M random long paths and 32k shaped deep paths (descend D components, climb U, all D,U<=72) are pushed through the real function in exact-size heap buffers; each result is compared with a ten-line reference normaliser and checked for idempotence, non-growth, kept root. Exhaustive where the structure lives, sampled beyond; a sanitizer report is a violation. Entry points: a small project written once with canonical paths and once with every occurrence of every path (manifest, default and command-line targets, depfile targets and dependencies, deps=gcc) respelled independently is run through the real binary step by step; both must behave identically.', 'note': 'Trusted: the reference normaliser (harness/probe_canon.cc RefCanon), ASan red zones. Empty string excluded (callers reject it).', 'ref': 'DESIGN.md §5 C14'}
 
 from .. import build, util, core
 import json
@@ -17,6 +17,8 @@ def probe():
 
 def setup():
     probe()
+    from .. import e2e
+    e2e.ninja_bin()
 
 
 def run(ctx):
@@ -56,6 +58,12 @@ def run(ctx):
             ctx.violation("C14/%s/%s" % (kind, i[:40]), "input %r: ninja gives %r, expected %r (%s)"
                           % (i, g, w, kind), {"input_hex": bad.split("|")[0]})
     ctx.counters["exhaustive_maxlen"] = maxlen
+    # the same function behind every entry point: manifest, command line, depfile targets and dependencies
+    from .. import e2e
+    import random as _random
+    rr = _random.Random(ctx.seed * 7 + 14)
+    seeds = [rr.randint(1, 10 ** 9) for _ in range(60 if ctx.tier == "quick" else 1500)]
+    e2e.parallel(lambda sd: e2e.c14_entry_case(ctx, sd), seeds)
 
 
 def replay(ctx, path):
